@@ -543,11 +543,15 @@ func getSnapshotCount(ctx storage.Context) int {
 // `Snapshot` method can return invalid results for `diff = new-old` epochs
 // until `diff` epochs have passed.
 //
-// Count MUST NOT be negative.
+// Count MUST be positive and MUST NOT exceed 256.
 func UpdateSnapshotCount(count int) {
 	common.CheckAlphabetWitness()
 	if count <= 0 {
 		panic("count must be positive")
+	}
+	if count > 256 {
+		// snapshots are stored under one-byte indexes
+		panic("count must not exceed 256")
 	}
 	ctx := storage.GetContext()
 	oldCount := getSnapshotCount(ctx)
